@@ -1,4 +1,6 @@
 import YatimlModel.Props.C08
+import YatimlModel.Props.C03
+import YatimlModel.Lemmas.RecPositioned
 /-!
 # C17 — recognition errors point at the offending place
 
@@ -78,5 +80,24 @@ theorem C17_construct_errors_positioned (env : Env) (d : ClassDef) (n : Node) (p
     all_goals first
       | (cases hx; exact ⟨_, _, rfl⟩)
       | cases hx
+
+/-- **Every recognition failure cites a position.**  For every class model (custom recognisers
+included), node, type and fuel: when recognition does not single out exactly one type, the error it
+returns has at least one leaf and every leaf cites at least one position. -/
+theorem C17_recognition_failure_positioned (env : Env) (fuel : Nat) (n : Node) (T : Ty) (ts : List Ty)
+    (ls : List Leaf) (h : recognize env fuel n T = .ok (ts, ls)) (hne : ts.length ≠ 1) :
+    ls ≠ [] ∧ ∀ l ∈ ls, l.marks ≠ [] := by
+  have := recognizeReq_pos env fuel n (.ty T)
+  unfold recognize at h
+  rw [h] at this
+  exact this hne
+
+/-- hence the RecognitionError with which processing a node refuses an unrecognised or ambiguous node
+cites a position in every leaf -/
+theorem C17_unrecognised_node_error_positioned (env : Env) (tbl : List Entry) (fuel : Nat) (n : Node) (T : Ty)
+    (ts : List Ty) (ls : List Leaf) (h : recognize env (fuel + 1) n T = .ok (ts, ls)) (hne : ts.length ≠ 1) :
+    processNode env tbl (fuel + 1) n T = .error (.recognition ls) ∧ ls ≠ [] ∧ ∀ l ∈ ls, l.marks ≠ [] :=
+  ⟨C03.C03_ambiguity_fails env tbl fuel n T ts ls h hne,
+   C17_recognition_failure_positioned env (fuel + 1) n T ts ls h hne⟩
 
 end YatimlModel.C17
